@@ -106,7 +106,11 @@ def replay_history(ctx: Ctx, rec: Dict[str, Any], dtype: torch.dtype, kw: Dict[s
                 tol = 1e-2 if half else (1e-6 if dtype == torch.float32 else 1e-12)
                 if not bool(((b[:, 0].double() - want_init[j]).abs() <= tol * (1 + abs(want_init[j]))).all()):
                     ctx.violation(f"simulate:{kind}:first-column", f"{kind}.{name}[:, 0] is {b[0, 0].item()}, the {'requested' if custom else 'default'} initial state is {want_init[j]}", detail)
-            if name in prev_ids and (prev_ids[name] == id(b) or (b.shape == prev_vals[name].shape and t > 1 and name == "spot" and torch.equal(b, prev_vals[name]))):
+            # replaced = a new tensor object; identical CONTENT is additionally suspicious only where two independent draws
+            # cannot coincide (float64, more than one time point, not a degenerate all-zero series)
+            same_content = (dtype == torch.float64 and b.shape == prev_vals.get(name, b[:0]).shape and t > 1 and name == "spot"
+                            and bool((b[:, 1:] != 0).any()) and torch.equal(b, prev_vals[name]))
+            if name in prev_ids and (prev_ids[name] == id(b) or same_content):
                 ctx.violation(f"simulate:{kind}:not-replaced", f"{kind}.{name} was not replaced by the new simulation", detail)
             prev_ids[name] = id(b)
             prev_vals[name] = b.clone()
@@ -146,7 +150,12 @@ def generators(ctx: Ctx) -> None:
                 default_eff = default
             for n in (1, 3):
                 for T in (1, 2, 5, 21):
-                    for init in (None, custom):
+                    inits: List[Any] = [None, custom]
+                    if len(custom) == 1:
+                        inits.append(custom[0])                       # the documented scalar form
+                        if name in ("generate_brownian", "generate_cir", "generate_vasicek"):
+                            inits += [0.0, (0.0,)]                     # an admissible zero initial state, scalar and tuple
+                    for init in inits:
                         for dtype in (torch.float32, torch.float64):
                             detail = {"generator": name, "n_paths": n, "n_steps": T, "init_state": init, "dtype": str(dtype), "params": kw}
                             try:
@@ -164,8 +173,8 @@ def generators(ctx: Ctx) -> None:
                                 ctx.violation(f"generator:{name}:{key}", f"{name}(n_paths={n}, n_steps={T}) raised {type(e).__name__}", {**detail, "error": repr(e)[:200]})
                                 continue
                             series = list(out) if isinstance(out, tuple) else [out]
-                            ctx.count((name, json.dumps(kw), n, T, init is None, str(dtype)), n=1)
-                            want = init if init is not None else default_eff
+                            ctx.count((name, json.dumps(kw), n, T, repr(init), str(dtype)), n=1)
+                            want = default_eff if init is None else (init if isinstance(init, tuple) else (init,))
                             for j, (srs, sg) in enumerate(zip(series, signs)):
                                 if tuple(srs.shape) != (n, T):
                                     ctx.violation(f"generator:{name}:shape", f"{name} returned shape {tuple(srs.shape)} for (n_paths={n}, n_steps={T})", detail)
@@ -179,7 +188,7 @@ def generators(ctx: Ctx) -> None:
                                 if j < len(want) and not (name == "generate_local_volatility_process" and j == 1):
                                     tol = 1e-6 if dtype == torch.float32 else 1e-12
                                     if not bool(((srs[:, 0].double() - want[j]).abs() <= tol * (1 + abs(want[j]))).all()):
-                                        ctx.violation(f"generator:{name}:first-column", f"{name}: series {j} starts at {srs[0, 0].item()}, the {'requested' if init else 'default'} initial state is {want[j]}", detail)
+                                        ctx.violation(f"generator:{name}:first-column", f"{name}: series {j} starts at {srs[0, 0].item()}, the {'requested' if init is not None else 'default'} initial state is {want[j]}", detail)
                             if hasattr(out, "volatility") and hasattr(out, "variance"):
                                 tol = 1e-5 if dtype == torch.float32 else 1e-12
                                 if not bool(((out.volatility.double() ** 2 - out.variance.double().clamp(min=0)).abs() <= tol * (1 + out.variance.double().abs())).all()):
@@ -193,7 +202,11 @@ def check(ctx: Ctx) -> None:
     k = 0
     for rec in res.records:
         regs = regimes(rec["kind"])
-        for dtype in DTYPES[ctx.tier]:
+        dts = list(DTYPES[ctx.tier])
+        if ctx.tier == "quick" and (rec["kind"] in ("cir", "heston") or k % 8 == 0):
+            dts.append(torch.float16)            # half precision: all variance-process histories and a sample of the others
+                                                 # (backend gaps are allowed outcomes, NaN is not)
+        for dtype in dts:
             kw = regs[k % len(regs)]
             replay_history(ctx, rec, dtype, kw, ctx.seed + k)
             k += 1
